@@ -68,7 +68,7 @@ Theorem C09_no_deadlock_on_locks :
   (forall g js j g', In g gs -> In (Locks.GWait js) g -> In j js -> nth_error gs j = Some g' ->
                      LockSkelOk.pkg_goroutine cls g') ->
   let s := Locks.run (Locks.init gs) sched in
-  forall k t, nth_error s k = Some t -> Locks.todo t <> [] -> Locks.enabled s k = false ->
+  forall k t, nth_error (Locks.ths s) k = Some t -> Locks.todo t <> [] -> Locks.enabled s k = false ->
   exists k', Locks.enabled s k' = true.
 Proof. exact LockSkelOk.scope_locks_no_deadlock. Qed.
 Print Assumptions C09_no_deadlock_on_locks.
@@ -86,3 +86,33 @@ Proof.
     apply andb_true_iff in H. tauto.
 Qed.
 Print Assumptions C09_lock_skeleton_checked.
+
+(* the same goroutines exclude each other as a lock must: in every reachable state a goroutine that
+   holds a lock of the package for writing is its only holder *)
+Theorem C09_locks_mutual_exclusion :
+  forall (cls : nat -> nat) (gs : list (list Locks.gop)) (sched : list nat),
+  (forall g, In g gs -> LockSkelOk.app_goroutine cls g \/ LockSkelOk.pkg_goroutine cls g) ->
+  (forall g js j g', In g gs -> In (Locks.GWait js) g -> In j js -> nth_error gs j = Some g' ->
+                     LockSkelOk.pkg_goroutine cls g') ->
+  let s := Locks.run (Locks.init gs) sched in
+  forall l i j u v, nth_error (Locks.ths s) i = Some u -> nth_error (Locks.ths s) j = Some v ->
+  Locks.holds Locks.W l u = true -> Locks.holds_any l v = true -> i = j.
+Proof. exact LockSkelOk.scope_locks_mutual_exclusion. Qed.
+Print Assumptions C09_locks_mutual_exclusion.
+
+(* "without data races", for the data the package guards by its locks (the metric maps and slices of
+   a scope, the entries of a registry shard, the bucket cache, a timer's buffered values: the
+   regenerated skeleton marks every access, the checker verifies that the guard is held - for
+   writing at a write): in every reachable state a goroutine about to write such data is the only
+   goroutine about to access it.  (Atomics and data that is immutable after construction are not
+   part of this statement.) *)
+Theorem C09_guarded_data_exclusive_access :
+  forall (cls : nat -> nat) (gs : list (list Locks.gop)) (sched : list nat),
+  (forall g, In g gs -> LockSkelOk.app_goroutine cls g \/ LockSkelOk.pkg_goroutine cls g) ->
+  (forall g js j g', In g gs -> In (Locks.GWait js) g -> In j js -> nth_error gs j = Some g' ->
+                     LockSkelOk.pkg_goroutine cls g') ->
+  let s := Locks.run (Locks.init gs) sched in
+  forall l i j u v w ru rv, nth_error (Locks.ths s) i = Some u -> nth_error (Locks.ths s) j = Some v ->
+  Locks.todo u = Locks.GUse true l :: ru -> Locks.todo v = Locks.GUse w l :: rv -> i = j.
+Proof. exact LockSkelOk.scope_data_exclusive_access. Qed.
+Print Assumptions C09_guarded_data_exclusive_access.
